@@ -120,6 +120,8 @@ def run_ops(ops):
 
         async def coro(self, event):
             logs[self.cb["id"]].append(enc_event(event))
+            if self.cb.get("raises"):
+                raise RuntimeError("coroutine callback %d raises" % self.cb["id"])
 
     def callback_for(cb):
         logs.setdefault(cb["id"], [])
@@ -129,6 +131,8 @@ def run_ops(ops):
     obs = []
 
     async def main():
+        import asyncio as _aio
+        _aio.get_running_loop().set_exception_handler(lambda loop, ctx: None)     # raising coroutine callbacks are part of the cases
         for op in ops:
             del sent[:]
             for k in logs:
@@ -359,6 +363,18 @@ def gen_c16(rng, tier):
         u2 = comp_codec.msg_recipe("setBLOBVector", (), [comp_codec.part_recipe("oneBLOB", "x", base64.b64encode(b"ABC").decode(), {"size": "3", "format": ".x"})])
         u2["kw"]["device"], u2["kw"]["name"], u2["kw"]["state"] = "A", "P", "Busy"
         yield {"op": "cli", "ops": [["on", {"id": 0, "type": "base", "fn": 0}], ["m", d], ["m", u], ["m", u2]], "oracles": ["C16"]}
+    # callbacks of every kind (plain / coroutine, raising or not) in every registration order on the same events:
+    # one callback's failure must not cost any other callback an event
+    import itertools
+    kinds = [(False, False), (False, True), (True, False), (True, True)]
+    orders = list(itertools.permutations(kinds)) + [((True, True), (True, False), (True, False)), ((True, False), (True, True), (True, True), (True, False))]
+    for order_ in (orders if tier == "thorough" else orders[::3] + orders[-2:]):
+        ops = [["on", {"id": 0, "type": "base", "fn": 0}]]
+        for i, (is_async, raises) in enumerate(order_):
+            ops.append(["on", {"id": i + 1, "type": rng.choice(["base", "value"]), "fn": i + 1, "async": is_async, "raises": raises}])
+        ops += [["m", def_recipe(rng, "Number", "A", "P")], ["m", set_recipe(rng, "Number", "A", "P")], ["m", set_recipe(rng, "Number", "A", "P")],
+                ["m", def_recipe(rng, "Text", "B", "Q")], ["m", set_recipe(rng, "Text", "B", "Q")], ["m", set_recipe(rng, "Number", "A", "P")]]
+        yield {"op": "cli", "ops": ops, "oracles": ["C15", "C16"]}
     # exhaustive filter combinations {absent, matching, non-matching}^3 x event types
     stream = [["m", def_recipe(rng, "Text", "A", "P")], ["m", set_recipe(rng, "Text", "A", "P")], ["m", def_recipe(rng, "Switch", "B", "Q")],
               ["m", set_recipe(rng, "Switch", "B", "Q")], ["m", set_recipe(rng, "Text", "A", "P")]]
